@@ -384,6 +384,14 @@ class ChainBuild(Suite):
                           dict(K(1, 'Quick', params=[P('x')], data='memory'), name='quick', task_base=0),
                           dict(K(2, 'Top', meta_inputs=[{'cls': 1}, {'cls': 0}]), name='top')],
                  files={}, base={'name': 'm', 'data': {'tasks': ['@M.*'], 'x': 2}}, context=None, hist=True),
+            # a parameter read under another config key than its name (`name_in_config`), that key absent, while the config holds
+            # an entry called like the parameter's own name - the key of another parameter of the task, or of another task
+            dict(classes=[dict(K(0, 'Model', params=[P('lr', cfg='model_lr', default=[5]), P('rate', cfg='lr')]), name='model'),
+                          dict(K(1, 'Report', meta_inputs=[{'cls': 0}], params=[P('depth', cfg='report_depth', default=[1])]), name='report'),
+                          dict(K(2, 'Other', params=[P('depth')]), name='other')],
+                 files={}, base={'name': 'm', 'data': {'tasks': ['@M.*'], 'lr': 3, 'depth': 9}}, context=None, hist=True),
+            dict(classes=[dict(K(0, 'Model', params=[P('lr', cfg='model_lr'), P('rate', cfg='lr')]), name='model')],
+                 files={}, base={'name': 'm', 'data': {'tasks': ['@M.*'], 'lr': 3}}, context=None),
             # a pattern without wildcard names whole task names: ~stat_a takes stat_a, not stat_a_report
             dict(classes=[dict(K(0, 'StatA', params=[P('x')]), name='stat_a'), dict(K(1, 'StatB', params=[P('x')]), name='stat_b'),
                           dict(K(2, 'StatAReport', meta_inputs=[{'cls': 0}]), name='stat_a_report'),
